@@ -247,7 +247,9 @@ void DOMNormalizer::namespaceFixUp(DOMElementImpl *ele) const {
 
                     const XMLCh* newPrefix =  fNSScope->getPrefix(uri);
 
-                    if(newPrefix != 0) {
+                    // the default namespace does not apply to attributes:
+                    // the empty prefix is of no use here
+                    if(newPrefix != 0 && *newPrefix != 0) {
                         at->setPrefix(newPrefix);
                     }
                     else {
@@ -432,9 +434,14 @@ void DOMNormalizer::InScopeNamespaces::Scope::addOrChangeBinding(const XMLCh *pr
         }
     }
 
+    // the uri -> prefix entry of the old binding goes away, unless it names
+    // another prefix that is still bound to that uri (removeKey throws if
+    // the key is absent)
     const XMLCh *oldUri = fPrefixHash->get(prefix);
     if(oldUri) {
-        fUriHash->removeKey(oldUri);
+        const XMLCh *oldPrefix = fUriHash->get(oldUri);
+        if(oldPrefix && XMLString::equals(oldPrefix, prefix))
+            fUriHash->removeKey(oldUri);
     }
 
     fPrefixHash->put((void *)prefix, (XMLCh*)uri);
